@@ -304,7 +304,7 @@ fn c05_post(plan: &mut LPlan, seed: u64) {
     plan.fine = true;
     inject_ack_nak_noise(plan, seed, 4, 20);
     let mut r = crate::prng::Rng::new(seed ^ 0xE791);
-    if r.chance(0.35) {
+    if r.chance(0.5) {
         // Expiry-boundary scenario: a silent receiver keeps packets outstanding
         // for five seconds; NAKs arrive exactly 5000 / 5001 ms after queueing.
         plan.cfg.conn_timeout_ms = 15_000;
@@ -326,9 +326,40 @@ fn c05_post(plan: &mut LPlan, seed: u64) {
                 kind: Action::Inject { link, hex: hex(&build_nak(&[seq])), delay: 0 },
             });
         }
+        // two holders of one number, both records expired: retransmissions a few ms later
+        // (routed wherever the scheduler likes), NAKs once everything is older than 5 s
+        if r.chance(0.6) {
+            let n_back = r.range(0, 6) as u32;
+            plan.actions.push(TimedAction { t: tb + r.range(45, 70), kind: Action::Rexmit { back: n_back, count: r.range(1, 4) as u32 } });
+            for k in 0..8u32 {
+                let link = r.below(plan.n_links as u64) as usize;
+                let seq = base.wrapping_add(span_of_burst(plan, tb).saturating_sub(1 + k)) & 0x7FFF_FFFF;
+                plan.actions.push(TimedAction {
+                    t: tb + 5_075 + k as u64,
+                    kind: Action::Inject { link, hex: hex(&build_nak(&(if k % 2 == 0 { vec![seq] } else { vec![seq, seq] }))), delay: 0 },
+                });
+            }
+        }
+        // windows at (or a few steps above) the floor
+        if r.chance(0.5) {
+            for l in 0..plan.n_links {
+                let w = if l == 0 && r.chance(0.8) { 1000 } else { *r.pick(&[1000, 1000, 1050, 1100, 1200]) };
+                plan.actions.push(TimedAction { t: tb - 1, kind: Action::SetWindow { link: l, window: w } });
+            }
+        }
         plan.horizon_ms = tb + 6_000;
         plan.actions.sort_by_key(|a| a.t);
     }
+}
+
+fn span_of_burst(plan: &LPlan, t: u64) -> u32 {
+    plan.actions
+        .iter()
+        .find_map(|a| match &a.kind {
+            crate::lsim::plan::Action::Burst { n, stride, .. } if a.t == t => Some(n * stride),
+            _ => None,
+        })
+        .unwrap_or(1)
 }
 
 fn c10_profile(index: u64) -> Profile {
@@ -1094,14 +1125,14 @@ fn l_checks() -> Vec<Box<dyn Check>> {
         profile: c05_profile,
         post: Some(c05_post),
         monitors: || vec![Box::new(crate::mon::c05::C05::new())],
-        quick_runs: 400,
+        quick_runs: 1500,
         thorough_runs: 15_000,
         rule: "one run = one seeded closed-loop plan with duplicate probes, retransmissions routed to other links, sequence strides that collide modulo 16384, a 5000/5001 ms expiry-boundary scenario under a silent receiver, reload removing links, and NAK lists from the receiver model plus forged ones (singles, ranges, repeats, unknown numbers); one uplink datagram per step. Every NAK entry is judged against an independent ownership table and the exact charge arithmetic is checked per datagram. Non-trivial = at least one NAK entry was judged; distinct = distinct event-log hashes among non-trivial runs",
         assumptions: &[
             "which holder lost a NAKed number is read from the packet log after the datagram (one datagram per step)",
             "for a NAK the sender no longer has a record for, charging any one holder or nobody is accepted",
         ],
-        probes: &["c05.nak_entry", "c05.tracked", "c05.untracked", "c05.charged", "c05.unknown_nak", "c05.two_holders"],
+        probes: &["c05.nak_entry", "c05.tracked", "c05.untracked", "c05.charged", "c05.unknown_nak", "c05.two_holders", "c05.untracked_two_holders", "c05.untracked_two_holders_one_at_floor"],
     }),
     Box::new(LCheck {
         id: "C10",
